@@ -259,7 +259,11 @@ impl<'a> BlockFiltersProcess<'a> {
                     );
                 }
             }
-        } else if matched_blocks.is_empty() {
+        } else if matched_blocks.is_empty()
+            && self.filter.storage.get_earliest_matched_blocks().is_none()
+        {
+            // No matched blocks are waiting, neither in memory nor in the storage (after a restart
+            // or a rollback they are only in the storage until they are recovered).
             self.filter
                 .storage
                 .update_block_number(filtered_block_number)
